@@ -308,6 +308,18 @@ class Ctx:
         else:
             self.proof_breaks.append(f'leanchecker rejected {module}: {(out + err)[-600:]}')
 
+    def attempt(self, name, fn):
+        """run one section of a check; if it cannot be evaluated on this tree (e.g. a private signature the section calls
+        has changed) that is a broken correspondence, and the remaining sections - the oracles in particular - still run"""
+        try:
+            return fn()
+        except Infra:
+            raise
+        except Exception as ex:
+            self.mismatch(f'{name}: could not be evaluated on this tree ({type(ex).__name__}: {str(ex)[:200]})',
+                          {'section': name}, None, None)
+            return None
+
     # -- deterministic re-execution of one oracle call: the PRNG state in front of the call is stored in the case
     def snap(self):
         import base64, pickle
